@@ -469,3 +469,86 @@ def standard_decide(ctx, proof_ok, corr, search_fails, classify=None):
         violation(ctx, "proof", {"failures": ctx.proof["failed"],
                                  "note": "a proof obligation or the axiom/forbidden-construct guard no longer checks"},
                   no_input=not found_input)
+
+
+# ----------------------------------------------------------------------------- standard flow
+def standard_run(ctx, mod):
+    """The flow shared by most properties.  The props module provides:
+       PROP_FILE            Properties_<id>.v
+       RULE                 text: how cases are generated and what makes one distinct/non-trivial
+       corr_runs(ctx)       -> [dict(tag, harness, driver, args, needs_vo, flavour='O1', timeout=...)]
+       classify(line)       -> known-findings tag of a '!' failure line, or None          (optional)
+       nontrivial(line)     -> bool                                                         (optional)
+       extra(ctx, lib)      -> None; may add to ctx.cov, call violation(...)                (optional)
+    """
+    lib = build_repo(ctx, "O1")
+    ctx.say("repo built:", lib)
+    pre = getattr(mod, "pre", None)
+    if pre:
+        pre(ctx, lib)
+    proof_ok = coq_check_properties(ctx, mod.PROP_FILE)
+    ctx.say("proofs: %d/%d %s" % (ctx.proof["discharged"], ctx.proof["obligations"], "ok" if proof_ok else "BROKEN"))
+    if not proof_ok:
+        ctx.say(json.dumps(ctx.proof["failed"], indent=1)[:3000])
+    corr = []
+    fails_all = []
+    tot = 0
+    distinct = 0
+    samples = []
+    kinds = {}
+    for r in mod.corr_runs(ctx):
+        fl = r.get("flavour", "O1")
+        libdir = lib if fl == "O1" else build_repo(ctx, fl)
+        drv = build_driver(ctx, r["driver"], needs_vo=r.get("needs_vo", ()))
+        h = build_harness(ctx, r["harness"], libdir, fl, extra=r.get("cxx_extra", ()))
+        n, mism, fails, cases = run_cases(ctx, h, drv, r["args"], r["tag"], timeout=r.get("timeout", 3000), env=r.get("env"))
+        ctx.say("%s: %d cases, %d disagreements, %d direct failures" % (r["tag"], n, len(mism), len(fails)))
+        corr.append((r["tag"], n, mism, cases))
+        fails_all += [(r["tag"], l, t) for (l, t) in fails]
+        tot += n
+        distinct += distinct_count(cases, getattr(mod, "nontrivial", lambda l: True))
+        samples += sample_lines(cases, 4)
+        for k, v in kind_histogram(cases).items():
+            kinds[k] = kinds.get(k, 0) + v
+    ctx.cov.update({"evaluations": tot, "distinct_nontrivial": distinct, "traces_validated_against_impl": tot,
+                    "rule": mod.RULE, "samples": samples[:12], "kinds": kinds,
+                    "disagreements": sum(len(m) for (_, _, m, _) in corr),
+                    "direct_failures": len(fails_all)})
+    extra = getattr(mod, "extra", None)
+    if extra:
+        extra(ctx, lib)
+    standard_decide(ctx, proof_ok, corr, fails_all, getattr(mod, "classify", None))
+
+
+def standard_replay(ctx, mod, path):
+    """Re-run the recorded case: all random choices derive from (seed, tier), so the harness regenerates the
+    same case file; print the recorded line and what implementation and model say now."""
+    r = json.load(open(path))
+    print(json.dumps(r, indent=1)[:6000])
+    if r.get("kind") not in ("search", "correspondence"):
+        return 0
+    ctx.seed = r.get("seed", ctx.seed)
+    ctx.tier = r.get("tier", ctx.tier)
+    lib = build_repo(ctx, "O1")
+    for run in mod.corr_runs(ctx):
+        if run["harness"] != r.get("harness") and run["tag"] != r.get("harness"):
+            continue
+        drv = build_driver(ctx, run["driver"], needs_vo=run.get("needs_vo", ()))
+        h = build_harness(ctx, run["harness"], lib, run.get("flavour", "O1"))
+        n, mism, fails, cases = run_cases(ctx, h, drv, run["args"], "replay")
+        if r["kind"] == "search":
+            want = r.get("case", "")
+            still = [x for x in fails if x[1] == want]
+            print("searched for the recorded failing case in a fresh run of the same seed/tier:", want[:300])
+        else:
+            lhs = r.get("impl", "").split(" | ")[0]
+            still = [m for m in mism if m[1].split(" | ")[0] == lhs]
+            for fn, who in ((cases, "implementation now"), (cases[:-6] + ".model", "model now         ")):
+                with open(fn) as f:
+                    for l in f:
+                        if l.split(" | ")[0] == lhs:
+                            print(who + ":", l.rstrip()[:600])
+                            break
+        print("REPRODUCED" if still else "not reproduced on the current tree")
+        return 1 if still else 0
+    return 0
